@@ -43,7 +43,7 @@ def make(args):
     elif seed % 3 == 1 and not bad:
         # argument-forwarding family: methods pass (a function of) their own argument on to callees, some of which
         # validate their arguments; several callers per method
-        d = coregen.Gen(rng, p_rdyrun=0.15, p_rel=0.3, p_wit=0.0, p_fsm=0.05, p_nested=0.1, p_fwdarg=0.7, p_validate=0.6,
+        d = coregen.Gen(rng, p_rdyrun=0.15, p_rel=0.3, p_wit=0.0, p_fsm=0.05, p_nested=0.1, p_fwdarg=0.7, fwd_safe=False, p_validate=0.6,
                         max_t=4, max_m=3, p_struct=0.3).design()
     else:
         d = coregen.Gen(rng, p_rdyrun=0.45, p_badrun=0.7 if bad else 0.0, p_rel=0.35, p_wit=0.0, p_fsm=0.05,
